@@ -1,5 +1,9 @@
 // Command c01p: translation validation of real plans for property C01.
-//   c01p show -seed S -index I [-knobs K -exact 1]      print operation, real plan, requests of one fedlab case
+//   c01p show   -seed S -cfg C -op J [-src directed] [-knobs K -exact 1]   print operation, real plan, requests of one pair
+//   c01p gen    -seed S -from C -n N -fedops 5 -dirops 5 -unis U -knobs K -out F   one case line per (configuration, operation)
+//   c01p search -seed S -cfg C -src fedlab|directed -op J -ufrom A -unis N      first universe on which gateway != monolith
+//   c01p save   ... -unis U -out file.json    self-contained pair (configuration, universes, operation)
+//   c01p replay -in file|dir -out F           re-plan and re-run saved pairs
 package main
 
 import (
@@ -85,6 +89,10 @@ func main() {
 		cmdGen(a)
 	case "search":
 		cmdSearch(a)
+	case "save":
+		cmdSave(a)
+	case "replay", "corpus":
+		cmdReplay(a)
 	default:
 		fmt.Fprintln(os.Stderr, "unknown command", os.Args[1])
 		os.Exit(2)
